@@ -4,6 +4,7 @@ import JediModel.Gen.C02
 import JediModel.Lemmas.ArgBind
 import JediModel.Lemmas.FlowCache
 import JediModel.Lemmas.ClassLookup
+import JediModel.Lemmas.SetIter
 /-! # C02 — Inferred types agree with what the program does when executed
 
 `evalC` is the concrete semantics of the PyCore fragment (validated against CPython on every
@@ -358,5 +359,69 @@ theorem classmethod_bound_to_defining_class_witness :
   decide
 
 end Lookup
+
+/-! ## iterating a set of iterables (`ValueSet.iterate`, Model/SetIter)
+
+`for x in e`, comprehensions, unpacking and `*args` iterate the inferred value SET of `e`.  Each
+member contributes the stream of its elements; the theorems say that position by position nothing a
+member yields is lost and nothing is invented, for every number of members and all stream lengths,
+with the zipping function read from the source. -/
+section SetIter
+open JediModel.SetIter
+
+/-- the merge as found in the source -/
+def iterateSrc {α : Type} : Option (List (List α) → List (List α)) :=
+  zipperOf JediModel.Gen.C02.iterateZipper
+
+/-- `ValueSet.iterate` merges with `itertools.zip_longest` and drops only the fillers -/
+theorem iterate_source_is_modelled {α : Type} :
+    (iterateSrc : Option (List (List α) → _)) = some zipLongest ∧
+      JediModel.Gen.C02.iterateDropsFillers = true := ⟨rfl, rfl⟩
+
+/-- **Nothing is lost**: the `k`-th element of ANY member of the set is in the `k`-th merged value. -/
+theorem iterate_covers {α : Type} (ss : List (List α)) (s : List α) (k : Nat) (x : α)
+    (hs : s ∈ ss) (hx : s[k]? = some x) :
+    ∃ col, (zipLongest ss)[k]? = some col ∧ x ∈ col := by
+  have hk : k < s.length := by
+    rcases Nat.lt_or_ge k s.length with h | h
+    · exact h
+    · rw [List.getElem?_eq_none h] at hx; cases hx
+  refine ⟨column k ss, zipLongest_get ss k (Nat.lt_of_lt_of_le hk (length_le_maxLen hs)), ?_⟩
+  exact mem_column.mpr ⟨s, hs, hx⟩
+
+/-- **Nothing is invented**: a value in the `k`-th merged value is the `k`-th element of a member. -/
+theorem iterate_sound {α : Type} (ss : List (List α)) (k : Nat) (col : List α) (x : α)
+    (hc : (zipLongest ss)[k]? = some col) (hx : x ∈ col) : ∃ s ∈ ss, s[k]? = some x := by
+  rcases Nat.lt_or_ge k (maxLen ss) with h | h
+  · rw [zipLongest_get ss k h] at hc
+    cases hc
+    exact mem_column.mp hx
+  · rw [zipLongest_get_none ss k h] at hc; cases hc
+
+/-- `iterate_values` ("ignores the ordering and just returns all values"): exactly the union of the
+members' elements. -/
+theorem iterate_values_eq_union {α : Type} (ss : List (List α)) (x : α) :
+    x ∈ allValues (zipLongest ss) ↔ ∃ s ∈ ss, x ∈ s := by
+  unfold allValues
+  rw [List.mem_flatten]
+  constructor
+  · rintro ⟨col, hcol, hx⟩
+    obtain ⟨k, hk, rfl⟩ := List.getElem_of_mem hcol
+    obtain ⟨s, hs, hsx⟩ := iterate_sound ss k _ x (List.getElem?_eq_getElem hk) hx
+    exact ⟨s, hs, List.mem_of_getElem? hsx⟩
+  · rintro ⟨s, hs, hx⟩
+    obtain ⟨k, hk, rfl⟩ := List.getElem_of_mem hx
+    obtain ⟨col, hcol, hxc⟩ := iterate_covers ss s k _ hs (List.getElem?_eq_getElem hk)
+    exact ⟨col, List.mem_of_getElem? hcol, hxc⟩
+
+/-- witness: merging with `zip` stops at the shortest member - `for row in ((A(),), (B(), C()))` /
+`for cell in row`: `C` is reached by the run and missing from the merged values. -/
+theorem iterate_zip_shortest_loses :
+    zipShortest [[1], [2, 3]] = [[1, 2]] ∧ 3 ∉ allValues (zipShortest [[1], [2, 3]]) ∧
+      3 ∈ allValues (zipLongest [[1], [2, 3]]) := by decide
+
+example : zipLongest [[1], [2, 3], []] = [[1, 2], [3]] := by decide
+
+end SetIter
 
 end JediModel.Props.C02
